@@ -18,7 +18,8 @@ RULE = ("(a) bounded-exhaustive: every sequence of <=2 (quick; 702) / <=4 (thoro
         "lines), objects, and no residue (tmp files, *_delete markers, misplaced files). "
         "Non-trivial = the sequence tags a cid whose object is absent, or re-stores after a delete, or "
         "puts two related pids in one list, or has a rejected call; distinct key = sequence of "
-        "(op, pid, symbolic argument, outcome class).")
+        "(op, pid, symbolic argument, outcome class)."
+        ' The pid alphabet of the random part also has a non-ASCII pid and a pid that is the path of an existing file; history lengths are spread by construction.')
 EXHAUSTIVE_NOTE = "all sequences up to the stated length over the 26-call alphabet are enumerated completely"
 ASSUMPTIONS = ["single thread", "arguments are valid (C17 owns invalid ones)"]
 PIDS = ["a", "ab", "b/a", "c", "\u00fc/\u00e9\u20ac", seq.PIDFILE[0]]   # + a non-ASCII pid, + a pid that is the path of an existing file
